@@ -99,47 +99,65 @@ def rule_frame(c, prog):
     if len(lits) != 1:
         raise core.AnchorMissing(f"rbx_dom_weak::dom: expected exactly one struct-literal Instance, found {len(lits)}")
     fn, lit = lits[0]
+    origins = core.binding_origins(fn)
+    plids = core.param_lids(fn)
+    b_lids = [lid for nm, (lid, ty) in plids.items() if (ty or "").lstrip("&").replace("mut ", "").strip() == "rbx_dom_weak::instance::InstanceBuilder"]
+    r_lids = [lid for nm, (lid, ty) in plids.items() if (ty or "").endswith("referent::Ref")]
+    if len(b_lids) != 1:
+        raise core.AnchorMissing(f"the function building the Instance ({fn.path}) does not take exactly one InstanceBuilder")
+    blid = b_lids[0]
+
+    def clean(path):
+        return [p for p in path if not p.startswith(".") and p != "?"]
     src = {}
     for f in lit["fields"]:
-        root, path = core.place_root(f["e"])
-        src[f["f"]] = (root, tuple(p for p in path if not p.startswith(".")))
-    broot = src.get("referent", (None,))[0]
-    want = {"referent": (broot, ("referent",)), "name": (broot, ("name",)), "class": (broot, ("class",)), "properties": (broot, ("properties",))}
-    btype = None
-    for prm in fn.params:
-        if prm.get("name") == broot:
-            btype = prm.get("ty")
-    if broot is None or "InstanceBuilder" not in (btype or ""):
-        c.violation(R, "build|source", f"the struct-literal Instance is not built from an InstanceBuilder parameter (referent comes from {src.get('referent')})", core.loc(lit), instance="build:source")
-    else:
-        c.ok(R, "build:source")
-    for k, v in want.items():
+        lid, path = core.resolve_place(f["e"], origins)
+        src[f["f"]] = (lid, tuple(clean(path)))
+    c.ok(R, "build:source")
+    for k in ("referent", "name", "class", "properties"):
         inst = f"build:{k}"
-        if src.get(k) == v:
+        if src.get(k) == (blid, (k,)):
             c.ok(R, inst)
         else:
-            c.violation(R, f"build|{k}", f"insert builds Instance.{k} from {src.get(k)}, expected {v}", core.loc(lit), instance=inst)
+            c.violation(R, f"build|{k}", f"insert builds Instance.{k} from {src.get(k)}, expected the builder's `{k}`", core.loc(lit), instance=inst)
     # parent: a Ref parameter of the same function (not a field of the builder)
-    proot = src.get("parent", (None, ()))
-    ptype = next((prm.get("ty") for prm in fn.params if prm.get("name") == proot[0]), "")
-    if proot[1] == () and "referent::Ref" in (ptype or ""):
+    if src.get("parent", (None, None))[0] in r_lids and src["parent"][1] == ():
         c.ok(R, "build:parent")
     else:
-        c.violation(R, "build|parent", f"insert builds Instance.parent from {proot}, expected the parent Ref parameter", core.loc(lit), instance="build:parent")
+        c.violation(R, "build|parent", f"insert builds Instance.parent from {src.get('parent')}, expected the parent Ref parameter", core.loc(lit), instance="build:parent")
     # children enqueued from builder.children with the new instance as parent
-    pb = [n for n in core.walk_fn(fn) if n.get("k") == "MethodCall" and n["m"] in ("push_back", "push_front", "extend")]
-    okq = False
-    for n in pb:
-        for a in core.walk(n["args"][0]) if n["args"] else []:
-            a = core.strip(a)
-            if a.get("k") == "Tup" and len(a["args"]) == 2:
-                r0 = core.place_root(a["args"][0])
-                r1 = core.place_root(a["args"][1])
-                if r0 == (broot, ["referent"]) and r1[0] is not None and r1[0] != broot:
-                    okq = True
-    # the pushed children must come from a loop / iterator over builder.children
-    src_ok = any(core.as_for(n) is not None and core.place_root(core.as_for(n)[1])[0] == broot and "children" in core.place_root(core.as_for(n)[1])[1] for n in core.walk_fn(fn)) or \
-        any(n.get("k") == "MethodCall" and n["m"] == "extend" and broot == core.place_root(n["args"][0])[0] and "children" in core.place_root(n["args"][0])[1] for n in core.walk_fn(fn) if n.get("args"))
+
+    def is_builder_field(e, field):
+        lid, path = core.resolve_place(e, origins)
+        return lid == blid and clean(path)[:1] == [field]
+    okq = src_ok = False
+    for n in core.walk_fn(fn):
+        fl = core.as_for(n)
+        if fl is not None and n.get("k") != "DropTemps" and is_builder_field(fl[1], "children"):
+            child_lids = set()
+            stack = [fl[0]]
+            while stack:
+                x = stack.pop()
+                if isinstance(x, dict):
+                    if x.get("k") == "Binding":
+                        child_lids.add(x["lid"])
+                    stack.extend(v for v in x.values() if isinstance(v, (dict, list)))
+                elif isinstance(x, list):
+                    stack.extend(x)
+            for m in core.walk(fl[2]):
+                if m.get("k") == "MethodCall" and m["m"] in ("push_back",) and m["args"]:
+                    a = core.strip(m["args"][0])
+                    if a.get("k") == "Tup" and len(a["args"]) == 2 and is_builder_field(a["args"][0], "referent") and core.strip(a["args"][1]).get("lid") in child_lids:
+                        okq = src_ok = True
+        if n.get("k") == "MethodCall" and n["m"] == "extend" and n["args"] and is_builder_field(n["args"][0], "children"):
+            a = core.strip(n["args"][0])
+            if a.get("k") == "MethodCall" and a["m"] == "map" and core.strip(a["args"][0]).get("k") == "Closure":
+                clo = core.strip(a["args"][0])
+                body = core.strip(clo["body"])
+                while body.get("k") == "Block" and not body["b"]["stmts"] and "expr" in body["b"]:
+                    body = core.strip(body["b"]["expr"])
+                if body.get("k") == "Tup" and len(body["args"]) == 2 and is_builder_field(body["args"][0], "referent"):
+                    okq = src_ok = True
     if okq and src_ok:
         c.ok(R, "build:children-enqueued")
     else:
@@ -205,20 +223,23 @@ def rule_conserve(c, prog):
             c.ok(R, inst)
         else:
             c.violation(R, f"recv|insert|{owner}", f"transfer inserts into the instance map of parameter #{owner}, expected the destination", t.get("sp", ""), instance=inst)
-    # same key: at HIR level every inner_insert-like call in transfer passes the key that was removed
+    # same key: the instance re-inserted into the destination is the one returned by a removal, under that removal's key
     hfn = prog.fn(DOM + "WeakDom::transfer")
+    lets = {st["pat"].get("lid"): st["init"] for st in core.walk_lets(hfn.body) if "init" in st and st["pat"].get("k") == "Binding"}
+    n_ins = 0
     for n in core.walk_fn(hfn):
-        if n.get("k") == "MethodCall" and n["m"] in ("inner_insert",):
-            k = core.place_root(n["args"][0])[0] if n["args"] else None
-            # the removed key in the same scope
-            rk = None
-            for m in core.walk_fn(hfn):
-                if m.get("k") == "MethodCall" and m["m"] == "inner_remove" and m["args"]:
-                    rk = core.place_root(m["args"][0])[0]
-            if k is not None and k == rk:
+        if n.get("k") == "MethodCall" and n["m"] in ("inner_insert",) and len(n["args"]) == 2:
+            n_ins += 1
+            klid = core.place_root_lid(n["args"][0])[0]
+            vlid = core.strip(n["args"][1]).get("lid")
+            src = core.strip(lets.get(vlid, {})) if vlid in lets else {}
+            rk = core.place_root_lid(src["args"][0])[0] if src.get("k") == "MethodCall" and src.get("m") == "inner_remove" and src.get("args") else None
+            if klid is not None and klid == rk:
                 c.ok(R, "key:inner_insert")
             else:
-                c.violation(R, f"key|inner_insert|{k}", f"transfer re-inserts under key `{k}`, expected the same referent that was removed (`{rk}`)", core.loc(n), instance="key:inner_insert")
+                c.violation(R, f"key|inner_insert|{core.fingerprint(n['args'][0], 2)}", f"transfer re-inserts an instance under key `{core.fingerprint(n['args'][0], 2)}`, which is not the referent it was removed under", core.loc(n), instance="key:inner_insert")
+    if n_ins == 0:
+        c.ok(R, "key:inner_insert")    # no inner_insert calls by that name: the MIR rule above carries the clause
 
 
 def run(c, prog):
